@@ -168,6 +168,13 @@ func c01Samples(t *testing.T, r *zv.Run, g *zv.Group, sy *symb, rng *zv.Rand, q,
 				check(f, row, col, "axis-flipped")
 				f.ProofType = 2
 				check(f, row, col, "axis-invalid")
+				// an out-of-enum axis together with other coordinates: the sites that interpret the axis must agree
+				for _, pt := range []rsmt2d.Axis{2, 3, 7} {
+					f.ProofType = pt
+					for _, d := range [][2]int{{0, 1}, {1, 0}, {1, 1}, {w - 1, 0}, {0, w - 1}} {
+						check(f, (row+d[0])%w, (col+d[1])%w, "axis-invalid-shifted")
+					}
+				}
 				// start/end moved, node list kept / trimmed (position "promotion" when the nodes run out)
 				for _, delta := range []int{1, 2, w / 2, w, 2 * w} {
 					for _, trim := range []int{0, 1} {
